@@ -414,3 +414,86 @@ func verifCanary(label string, cond bool) {}
 //@   props C21
 //@   requires acksInv(c) && subsInv(c) && ctx != nil
 //@   assigns *
+
+// ---------------------------------------------------------------------------
+// C23: client options affect only the client they are applied to.
+//
+// Ownership argument: (1) a new configuration owns everything an option can write through it -- the
+// objects behind its pointer fields are allocated by newConfig, so no other configuration and no
+// package-level default shares them; (2) every option (every closure of type Option, enumerated from
+// the source) writes only objects reachable through the configuration it is applied to, or objects it
+// allocates itself. Hence applying options to one configuration leaves every other configuration and
+// every default unchanged. (Dialer(d) installs a caller-supplied dialer: sharing d is then the
+// caller's choice and later options write d, which (2) allows.)
+// ---------------------------------------------------------------------------
+
+//@ pred cfgInv(cfg *Config) := cfg != nil && cfg.dialer != nil && cfg.dialer.Dialer != nil && cfg.dialer.ClientACK != nil &&
+//@      cfg.sechan != nil && cfg.session != nil && cfg.session.ClientDescription != nil
+
+//@ func DefaultDialer
+//@   props C23
+//@   assigns nothing
+//@   ensures [C23:own-dialer] result != nil && fresh(result) && result.Dialer != nil && fresh(result.Dialer)
+//@   ensures [C23:own-ack] result.ClientACK != nil && fresh(result.ClientACK)
+
+//@ func DefaultClientConfig
+//@   props C23
+//@   assigns nothing
+//@   ensures [C23:own-sechan] result != nil && fresh(result)
+
+//@ func DefaultSessionConfig
+//@   props C23
+//@   assigns nothing
+//@   ensures [C23:own-session] result != nil && fresh(result) && result.ClientDescription != nil && fresh(result.ClientDescription)
+//@   ensures [C23:own-session-parts] fresh(result.LocaleIDs) && result.UserTokenSignature != nil && fresh(result.UserTokenSignature) &&
+//@           result.ClientDescription.ApplicationName != nil && fresh(result.ClientDescription.ApplicationName)
+
+//@ func newConfig
+//@   props C23
+//@   assigns nothing
+//@   ensures [C23:owned] cfgInv(result) && fresh(result) && fresh(result.dialer) && fresh(result.dialer.Dialer) && fresh(result.dialer.ClientACK) &&
+//@           fresh(result.sechan) && fresh(result.session) && fresh(result.session.ClientDescription)
+//@   canary ensures [C23:canary-shared] result.dialer.ClientACK == uacp.DefaultClientACK
+
+// every option: writes only what the configuration owns (and what it allocates)
+//@ func closures-of Option
+//@   props C23
+//@   frame_only
+//@   params cfg
+//@   requires cfgInv(cfg)
+//@   assigns *cfg, *cfg.dialer, *cfg.dialer.Dialer, *cfg.dialer.ClientACK, *cfg.sechan, *cfg.session, *cfg.session.ClientDescription
+//@   assigns *dyn(cfg.session.UserIdentityToken, *ua.AnonymousIdentityToken), *dyn(cfg.session.UserIdentityToken, *ua.UserNameIdentityToken)
+//@   assigns *dyn(cfg.session.UserIdentityToken, *ua.X509IdentityToken), *dyn(cfg.session.UserIdentityToken, *ua.IssuedIdentityToken)
+//@   ensures [C23:keeps-parts] cfg.sechan == old(cfg.sechan) && cfg.session == old(cfg.session) && cfg.dialer == old(cfg.dialer) &&
+//@           cfg.dialer.Dialer == old(cfg.dialer.Dialer) && cfg.dialer.ClientACK == old(cfg.dialer.ClientACK) &&
+//@           cfg.session.ClientDescription == old(cfg.session.ClientDescription)
+//@   ensures [C23:own-token] cfg.session.UserIdentityToken == old(cfg.session.UserIdentityToken) || fresh(cfg.session.UserIdentityToken)
+
+// Dialer(d) installs the caller's dialer (the one option that replaces an owned object by a caller-supplied one)
+//@ func Dialer$1
+//@   props C23
+//@   frame_only
+//@   requires cfgInv(cfg)
+//@   assigns cfg.dialer
+//@   ensures [C23:callers-dialer] cfg.dialer == *d
+
+//@ func setCertificate
+//@   props C23
+//@   frame_only
+//@   requires cfgInv(cfg)
+//@   assigns cfg.sechan.Certificate, cfg.session.ClientDescription.ApplicationURI
+
+//@ func setPolicyID
+//@   props C23
+//@   frame_only
+//@   assigns *dyn(t, *ua.AnonymousIdentityToken), *dyn(t, *ua.UserNameIdentityToken), *dyn(t, *ua.X509IdentityToken), *dyn(t, *ua.IssuedIdentityToken)
+
+// file and PEM/DER parsing helpers: no effect on configuration objects (assumed)
+//@ func loadCertificate
+//@   props C23
+//@   assumed
+//@   assigns nothing
+//@ func loadPrivateKey
+//@   props C23
+//@   assumed
+//@   assigns nothing
